@@ -1,4 +1,6 @@
 fn main() {
+    println!("cargo:rustc-check-cfg=cfg(micro_http_verif)");
+    println!("cargo:rustc-check-cfg=cfg(micro_http_verif_small)");
     #[cfg(not(target_family = "unix"))]
     std::compile_error!("This crate only supports Unix-like targets");
 }
